@@ -97,9 +97,11 @@ class NegLab:
         self.user_id_calls += 1
         if self.identity == "raise":
             raise RuntimeError("identity check failed")
+        if self.identity == "falsy":
+            return None, None
         return (self.identity == "true"), None
 
-    def configure(self, supported, mode="normal", require_calling=(), require_called=False, identity=None):
+    def configure(self, supported, mode="normal", require_calling=(), require_called=False, identity=None, inplace=False):
         cxs = []
         for s in supported:
             cx = build_context(AB[s["ab"]], [TS[t] for t in s["ts"]])
@@ -109,7 +111,14 @@ class NegLab:
         self.server.contexts = cxs
         if threading.active_count() <= 3:      # the switch is process-wide: parallel drivers set it themselves per batch
             _config.UNRESTRICTED_STORAGE_SERVICE = mode == "unrestricted"
-        self.ae.require_calling_aet = list(require_calling)
+        if inplace:
+            # the application edits the list it got from the getter (no setter call)
+            # start from an empty list, then fill the list object the getter returns
+            self.ae.require_calling_aet = []
+            live = self.ae.require_calling_aet
+            live.extend(require_calling)
+        else:
+            self.ae.require_calling_aet = list(require_calling)
         self.ae.require_called_aet = bool(require_called)
         self.identity = identity
         if identity is not None and not self._uid_bound:
